@@ -41,6 +41,9 @@ def run(cx: Cx):
     _arms(cx)
     _worker(cx)
     check_no_swallow(cx, [GS, RUN, SCORE])
+    # the grid is ParameterList.build(): independent dictionaries per combination (the workers write into them)
+    from .c14 import check_build
+    check_build(cx)
 
 
 # ------------------------------------------------------------------------------------------------ R-EXH
